@@ -48,5 +48,7 @@ SEEDED = [
     ("C19-9", "C19-LIN"),
     ("C19-10", "C19-LIN"),
     ("C19-11", "C19-TOTAL"),
+    ("C19-12", "C19-LIN"),
+    ("C19-13", "C19-LIN"),
 ]
 MUTANTS = list(MUTANTS) + [_P("seed-" + sid, _os.path.join(_SEEDS, sid, "patch.diff"), rule) for sid, rule in SEEDED if _os.path.exists(_os.path.join(_SEEDS, sid, "patch.diff"))]
